@@ -3,7 +3,7 @@
 From Coq Require Import List NArith Bool String.
 Local Open Scope string_scope.
 From OC Require Import Base.Bytes Model.Merge Model.CfgStore
-     Proofs.MergeProofs Proofs.PathProofs Proofs.MergeRefute Proofs.CommitProofs Proofs.CommitExample
+     Proofs.MergeProofs Proofs.TextPathProofs Proofs.MergeRefute Proofs.CommitProofs Proofs.CommitExample
      Proofs.CommitPreserve Proofs.CommitHistory.
 Import ListNotations.
 Open Scope N_scope.
